@@ -170,3 +170,53 @@ __CPROVER_ensures(FIRST ==> g_t_alarm != 0) /*@ C07 "a watchdog alarm is armed b
     min_obligations=20)
 
 UNITS = [bw_exit, bw_stop, bm_stop, on_signal]
+
+# ------------------------------------------------------------------------------------------ the worker thread function (lambda in BackendWorker::run)
+ML_PRELUDE = r'''
+typedef struct Options { uint16_t cpu_affinity; } Options;
+typedef struct BW { Options _options; bool _is_worker_running; } BW;
+size_t g_inits, g_polls, g_exits, g_notify_calls, g_thrown_total; bool g_running_published, g_stop_seen;
+void BW__init(BW* self) __CPROVER_requires(g_inits == 0) __CPROVER_assigns(g_inits) __CPROVER_ensures(g_inits == 1);
+/* OS calls that may fail with a QuillError - or anything else */
+void SET_CPU_AFFINITY(uint16_t cpu) __CPROVER_assigns(g_exc, g_thrown_total) __CPROVER_ensures((g_exc == 0 || g_exc == EXC_STD || g_exc == EXC_OTHER) && g_thrown_total == OLD(g_thrown_total) + (g_exc != 0 ? 1 : 0));
+void SET_THREAD_NAME(BW* self) __CPROVER_assigns(g_exc, g_thrown_total) __CPROVER_ensures((g_exc == 0 || g_exc == EXC_STD || g_exc == EXC_OTHER) && g_thrown_total == OLD(g_thrown_total) + (g_exc != 0 ? 1 : 0));
+void ERROR_NOTIFIER(BW* self) __CPROVER_assigns(g_notify_calls) __CPROVER_ensures(g_notify_calls == OLD(g_notify_calls) + 1);
+/* one pass of the backend: may let an exception of ANY type escape (user sinks, notifier callbacks, allocation) */
+void BW__poll(BW* self)
+__CPROVER_requires(g_running_published && g_exits == 0) /*@ C07 "the worker polls only between publishing that it runs and its exit drain" */
+__CPROVER_assigns(g_polls, g_exc, g_thrown_total) __CPROVER_ensures(g_polls == OLD(g_polls) + 1 && (g_exc == 0 || g_exc == EXC_STD || g_exc == EXC_OTHER) && g_thrown_total == OLD(g_thrown_total) + (g_exc != 0 ? 1 : 0));
+void BW__exit(BW* self)
+__CPROVER_requires(g_stop_seen) /*@ C07 "the exit drain starts only after the worker saw the stop request" */
+__CPROVER_assigns(g_exits, g_exc, g_thrown_total) __CPROVER_ensures(g_exits == OLD(g_exits) + 1 && (g_exc == 0 || g_exc == EXC_STD || g_exc == EXC_OTHER) && g_thrown_total == OLD(g_thrown_total) + (g_exc != 0 ? 1 : 0));
+/* _is_worker_running: stored by this thread once; stop() on another thread clears it at any time (rely step inside the load) */
+/* branch-free on purpose: a shim that ends in an `if` right before a loop with a contract gives the loop head a second
+   entry edge after inlining, which bypasses DFCC's havoc (seen as a failing loop_step_unwinding check) */
+static inline void RUN_store(BW* s, bool v, int mo) { s->_is_worker_running = v; g_running_published = (bool)(g_running_published | v); }
+bool RUN_load(BW* s, int mo) __CPROVER_assigns(s->_is_worker_running, g_stop_seen) __CPROVER_ensures(RET == s->_is_worker_running && (OLD(s->_is_worker_running) || !s->_is_worker_running) && g_stop_seen == !RET);
+#define ATOMIC_STORE__is_worker_running(s, v, mo) RUN_store(s, v, mo)
+#define ATOMIC_LOAD__is_worker_running(s, mo) RUN_load(s, mo)
+'''
+main_loop = dict(
+    name='BW.main_loop', primary='C10', props={'C10', 'C07'}, kind='S',
+    desc='the worker thread function (lambda in BackendWorker::run): no exception of any type escapes the thread (each is reported once and the loop goes on), the worker keeps polling until it sees the stop request, then runs the exit drain exactly once',
+    structs=[], prelude=ML_PRELUDE, enforce='BW_thread_main', replace=['BW__init', 'SET_CPU_AFFINITY', 'SET_THREAD_NAME', 'ERROR_NOTIFIER', 'BW__poll', 'BW__exit', 'RUN_load'], loopcontracts=True,
+    funcs=[dict(src=dict(header=BH, cls='BackendWorker', name='run', lambda_after=r'std::thread\s+worker\(\s*\[this,\s*options\]\(\)'), cfun='BW_thread_main', sig='void BW_thread_main(BW* self)', cls_c='BW',
+                member_fields=['_options', '_is_worker_running'], atomics=['_is_worker_running'], siblings=['_poll', '_exit'],
+                pre_rules=[(r'_init\(options\)\s*;', 'BW__init(self);', '!'), (r'\(std::numeric_limits<uint16_t>::max\)\(\)', '((uint16_t)65535)'),
+                           (r'set_cpu_affinity\(_options\.cpu_affinity\)\s*;', 'SET_CPU_AFFINITY(_options.cpu_affinity);'), (r'set_thread_name\(_options\.thread_name\.data\(\)\)\s*;', 'SET_THREAD_NAME(self);'),
+                           (r'_options\.error_notifier\s*\([^;]*\)\s*;', 'ERROR_NOTIFIER(self);')],
+                exceptions=True, may_throw=['SET_CPU_AFFINITY', 'SET_THREAD_NAME', 'BW__poll', 'BW__exit'],
+                loops={r'while\s*\(.*?_is_worker_running': r'''
+__CPROVER_assigns(self->_is_worker_running, g_stop_seen, g_polls, g_exc, g_thrown_total, g_notify_calls)
+__CPROVER_loop_invariant(g_exc == 0 && g_exits == 0 && g_running_published && g_notify_calls == g_thrown_total)
+'''},
+                contract=r'''
+__CPROVER_requires(__CPROVER_is_fresh(self, sizeof(*self)) && g_exc == 0 && g_inits == 0 && g_exits == 0 && g_notify_calls == 0 && g_thrown_total == 0 && !g_running_published && !g_stop_seen && !self->_is_worker_running)
+__CPROVER_assigns(self->_is_worker_running, g_inits, g_polls, g_exits, g_notify_calls, g_thrown_total, g_running_published, g_stop_seen, g_exc)
+__CPROVER_ensures(g_exc == 0) /*@ C10 "no exception of any type escapes the backend thread: a throwing sink, notifier or OS call never terminates the process or the worker" */
+__CPROVER_ensures(g_notify_calls == g_thrown_total) /*@ C10 "every exception that reaches the thread function is reported through the error notifier exactly once" */
+__CPROVER_ensures(g_exits == 1 && g_stop_seen) /*@ C07 "the worker leaves its loop only on the stop request and then runs the exit drain exactly once" */
+''')],
+    harness='  BW* s; BW_thread_main(s);',
+    dropped=['the options copy captured by the lambda (passed to _init)', 'text of the error messages'], trusted=['_poll and _exit by their own units; stop() on another thread may clear the running flag at any time (rely step in the load stub)', 'termination of the loop (liveness) is not claimed'], min_obligations=20)
+UNITS.append(main_loop)
